@@ -619,6 +619,37 @@ func (ex *Exec) lockOp(st *State, recv *Val, op string, pos token.Pos) {
 	}
 	set := func(s string) { ex.writeLoc(st, l, &Val{Sh: l.Sh, T: l.T, S: s}) }
 	name := strings.Join(l.Path, ".")
+	mkey := l.TKey + "#" + l.Ref + "#" + name
+	switch op {
+	case "unlock", "runlock":
+		if st.released == nil {
+			st.released = map[string]bool{}
+		}
+		st.released[mkey] = true
+	case "lock", "rlock":
+		if st.released[mkey] && len(l.Path) == 1 {
+			// the lock was given up earlier on this path: what it guards may have been changed by others
+			n := 0
+			tsh := ex.eng.sh.cacheByKey(l.TKey)
+			for fk, mu := range ex.eng.cs.Guarded {
+				if mu != l.Path[0] || !strings.HasPrefix(fk, l.TKey+".") || tsh == nil {
+					continue
+				}
+				f := strings.TrimPrefix(fk, l.TKey+".")
+				fsh := tsh.kid(f)
+				if fsh == nil {
+					continue
+				}
+				fl := &Loc{Heap: true, TKey: l.TKey, Ref: l.Ref, Path: []string{f}, Sh: fsh, T: fsh.T}
+				ex.writeLoc(st, fl, ex.freshValSh(fsh, "interf"))
+				n++
+			}
+			if n > 0 {
+				ex.note("lock %s re-acquired at %s: %d guarded field(s) havocked (interference by other goroutines)", name, ex.pos(pos), n)
+				ex.reassumeObjInvs(st)
+			}
+		}
+	}
 	switch op {
 	case "lock":
 		if ex.lockCheck {
